@@ -133,6 +133,10 @@ pub fn hopts_of(o: &Value) -> HistogramOpts {
     if o.get("buckets_first").and_then(|x| x.as_bool()).unwrap_or(false) {
         // the builder methods in the other order: buckets first, then namespace / subsystem / labels
         let mut h = HistogramOpts::new(o.get("name").and_then(|x| x.as_str()).unwrap_or(""), o.get("help").and_then(|x| x.as_str()).unwrap_or(""));
+        // "buckets_decoy": the setter is called twice — the later call stands
+        if o.get("buckets_decoy").is_some() {
+            h = h.buckets(floats(o.get("buckets_decoy")));
+        }
         if o.get("buckets").is_some() {
             h = h.buckets(floats(o.get("buckets")));
         }
